@@ -87,6 +87,11 @@ func fname(fn *ssa.Function) string {
 	if fn == nil {
 		return "<nil>"
 	}
+	if len(renamedFn) > 0 {
+		if old, ok := renamedFn[fn]; ok {
+			return old
+		}
+	}
 	if fn.Parent() != nil {
 		// anonymous function: parent name + suffix of own name
 		nm := fn.Name()
